@@ -20,8 +20,10 @@ Parts (see run()):
   segments    real PRBS on segments started from model checkpoints (orders 23/31)
   steps       one-call transition relation  state --len--> (bits, state')  from every start state
   histories   1..3 resumed calls (returned state fed back) == single call, all splits
-  seeds       seed reduction mod 2^n, zero-class replacement + warning
-  validation  len / order validation clauses
+  seeds       seed reduction mod 2^n, zero-class replacement + warning (incl. every machine-word boundary +-1)
+  forms       typed argument forms: seed / len / order given as numpy integer scalars, bool, integral floats, 0-d arrays;
+              positional call forms; independence of the global grid `gv`
+  validation  len / order validation clauses, alone and combined (unsupported order x len x seed x return_seed)
 """
 from __future__ import annotations
 
@@ -41,12 +43,38 @@ LEVEL = 'model_checking'
 NONTRIVIAL = ('a case whose start states are not only the two seeds the test-suite uses (default all-ones, 0->1) and whose '
               'output contains both symbols; counted per case (= chunk of start states / one segment / one seed value), each '
               'case having a distinct (order, start-state set, length alphabet) tag; validation cases count when the '
-              '(order, len, seed) triple is not one the test-suite already asserts')
+              '(order, len, seed) triple is not one the test-suite already asserts; typed-argument cases count when the library '
+              'accepted the argument (so that its output was compared), not when it rejected the type')
 
 # documented taps (n, t) of the ITU-T O.150 polynomials x^n + x^t + 1 (property text / docstring),
 # written down here independently of the table inside PRBS
 REF_TAPS = {7: 6, 9: 5, 11: 9, 15: 14, 20: 3, 23: 18, 31: 28}
 ORDERS = sorted(REF_TAPS)
+
+# machine-word boundaries (bits): int8/uint8 ... int64/uint64, float32/float64 mantissas, 128-bit
+WORD_BITS = (7, 8, 15, 16, 24, 31, 32, 53, 62, 63, 64, 65, 127, 128)
+INT_DTYPES = ('int8', 'uint8', 'int16', 'uint16', 'int32', 'uint32', 'int64', 'uint64')
+# what counts as "the argument was rejected" where the statement leaves the treatment of an argument TYPE open
+REJECT = (TypeError, ValueError, OverflowError)
+
+
+def mk(spec):
+    """build an argument from plain (picklable) case data: ('T', type name, value) -> typed scalar / 0-d / 1-d array;
+    anything else is passed as it is"""
+    if not (isinstance(spec, tuple) and len(spec) == 3 and spec[0] == 'T'):
+        return spec
+    _, tname, v = spec
+    if tname in ('int', 'float', 'bool', 'complex'):
+        return {'int': int, 'float': float, 'bool': bool, 'complex': complex}[tname](v)
+    if tname[:3] in ('0d:', '1d:'):
+        return np.array(v, dtype=tname[3:])
+    return getattr(np, tname)(v)
+
+
+def spec_label(spec):
+    if isinstance(spec, tuple) and len(spec) == 3 and spec[0] == 'T':
+        return f'{spec[1]}({spec[2]!r})'
+    return repr(spec)
 
 
 # =========================================================================== GF(2) algebra
@@ -383,7 +411,7 @@ def case_steps(case):
                     o = int(bits[:P].sum())
                     if o != 1 << (n - 1):
                         viol.append(('period:ones!=2^(n-1)', f'{what}: {o} ones in the first 2^{n}-1 outputs, expected {1 << (n - 1)}'))
-                if L == P and int(st) % (1 << n) != s:
+                if L % P == 0 and int(st) % (1 << n) != s:
                     viol.append(('period:state-not-back-after-2^n-1', f'{what}: returned state {int(st)} != start state'))
                 if L >= 2 * P:
                     if not np.array_equal(bits[:L - P], bits[P:]):
@@ -400,6 +428,11 @@ def case_steps(case):
 # =========================================================================== case: resumed-call histories
 def short_lens(n):
     return [1, 2, 3, n - 1, n, n + 1, 2 * n + 3]
+
+
+def long_lens(P):
+    """one period -1/0/+1, two periods -1/0/+1/+3, three periods 0/+2"""
+    return [P - 1, P, P + 1, 2 * P - 1, 2 * P, 2 * P + 1, 2 * P + 3, 3 * P, 3 * P + 2]
 
 
 def compositions(total, parts):
@@ -419,9 +452,11 @@ def history_alphabet(n, long_too):
         seqs += list(itertools.product(lens, repeat=k))
     seqs += [c for c in compositions(2 * n + 3, 2)]          # every two-way split of 2n+3
     seqs += [c for c in compositions(n + 2, 3)]              # every three-way split of n+2
+    seqs += list(itertools.product((1, 2, n + 1), repeat=4))  # depth 4 (always fed back unchanged, see case_hist)
     if long_too:
         P = (1 << n) - 1
         seqs += [(P, 5), (5, P), (P - 1, 1, P + 1), (P + 1, P)]
+        seqs += [(P, P), (P, 1, P), (2 * P, 1), (1, 2 * P), (1, P - 1, 1, P), (P - 1, 1, 1, P - 1), (P, P, P, 1)]
     out, seen = [], set()
     for s in seqs:
         if s not in seen:
@@ -457,8 +492,9 @@ def case_hist(case):
                     calls += 1
                     shifts += L
                     parts.append(b)
-                    # feed back exactly what was returned; every second history feeds the plain-int value instead
-                    cur = st if (hist % 2 == 0) else int(st)
+                    # feed back exactly the object that was returned (no int() conversion); every second history of
+                    # depth <= 3 feeds the plain-int value instead, histories of depth 4 never do
+                    cur = st if (hist % 2 == 0 or len(seq) >= 4) else int(st)
                 hist += 1
                 cat = np.concatenate(parts)
                 h.update(cat.tobytes())
@@ -487,7 +523,18 @@ def seed_alphabet(n):
                # machine-word boundaries: a seed that is not reduced before it meets numpy integers behaves differently here
                ('2^31+5', (1 << 31) + 5), ('2^32-1', (1 << 32) - 1), ('2^62+1', (1 << 62) + 1), ('2^63-1', (1 << 63) - 1),
                ('2^63+5', (1 << 63) + 5), ('2^64-1', (1 << 64) - 1), ('-(2^63)-7', -(1 << 63) - 7), ('2^100+9', (1 << 100) + 9)]
-    return [('zero', a, b) for a, b in zero] + [('nonzero', a, b) for a, b in nonzero]
+    out = [('zero', a, b) for a, b in zero] + [('nonzero', a, b) for a, b in nonzero]
+    # every machine-word boundary exactly and one unit inside / outside, both signs (the class follows from the value)
+    seen = {v for _, _, v in out}
+    for k in WORD_BITS:
+        for sign in ('', '-'):
+            for d in (-1, 0, 1):
+                v = (1 << k) + d
+                v = -v if sign else v
+                if v not in seen:
+                    seen.add(v)
+                    out.append(('zero' if v % N == 0 else 'nonzero', f'{sign}(2^{k}{d:+d})' if d else f'{sign}2^{k}', v))
+    return out
 
 
 def case_seed(case):
@@ -543,36 +590,324 @@ def case_seed(case):
                stats={'impl_calls': 2, 'impl_shifts': 2 * L, 'seed_cases': 1})
 
 
+# =========================================================================== case: typed argument forms
+def typed_seed_alphabet(n):
+    """seeds that are not plain Python ints: every numpy integer dtype at its own limits and around 2^n, bool, integral
+    floats, 0-d arrays.  The mathematical value of each is int(argument)."""
+    N = 1 << n
+    wanted = [1, 0, 2, 5, N - 1, N, N + 1, N >> 1, 3 * N, 5 * N + 2, -1, -3, -N, -N + 1, -(N - 1)]
+    out = []
+    for tn in INT_DTYPES:
+        ii = np.iinfo(tn)
+        seen = set()
+        for v in wanted + [ii.min, ii.min + 1, ii.max - 1, ii.max, ii.max >> 1, (ii.max >> 1) + 1, (ii.max >> 1) + 6]:
+            v = int(v)
+            if ii.min <= v <= ii.max and v not in seen:
+                seen.add(v)
+                out.append(('T', tn, v))
+    for tn in ('bool', 'bool_'):
+        out += [('T', tn, True), ('T', tn, False)]
+    for tn in ('float', 'float64', 'float32'):
+        for v in (1.0, 0.0, 5.0, float(N - 1), float(N), float(N + 1), -3.0, 2.0 ** 53 + 2.0, 2.0 ** 64, 2.0 ** 64 + 4096.0,
+                  -(2.0 ** 64) - 4096.0):
+            out.append(('T', tn, v))
+    out += [('T', '0d:int64', 5), ('T', '0d:int64', N - 1), ('T', '0d:int64', 0), ('T', '0d:int32', -3), ('T', '0d:uint8', 5),
+            ('T', '0d:uint64', 5), ('T', '0d:uint64', (1 << 64) - 1)]
+    return out
+
+
+def forms_alphabet():
+    cases = []
+    for n in ORDERS:
+        t = REF_TAPS[n]
+        N = 1 << n
+        cases += [('seed', n, t, spec) for spec in typed_seed_alphabet(n)]
+        # len: positive values in integer-like types (floats and non-positive values belong to the validation part)
+        lens = [('T', tn, v) for tn in INT_DTYPES for v in (1, 10, 2 * n + 3, 127, 128, 255, 256, 300, 1000) if v <= np.iinfo(tn).max]
+        lens += [('T', 'bool', True), ('T', 'bool_', True), ('T', '0d:int64', 10), ('T', '0d:uint8', 2 * n + 3)]
+        cases += [('len', n, t, spec, seed) for spec in lens for seed in (5, ('T', 'int64', N - 2))]
+        cases += [('len', n, t, ('T', tn, v), 5) for tn in INT_DTYPES for v in (32767, 32768, 65535, 65536) if v <= np.iinfo(tn).max]
+        # order: the supported value itself in another type
+        orders = [('T', tn, n) for tn in INT_DTYPES + ('float', 'float64', 'float32', '0d:int64', '0d:uint8')]
+        cases += [('order', n, t, spec, seed, L) for spec in orders for seed in (5, N - 1, ('T', 'int64', 3)) for L in (2 * n + 3,)]
+        cases += [('order', n, t, spec, 5, ('T', 'int64', 10)) for spec in orders[:8:3]]
+        cases += [('call', n, t, seed) for seed in (5, N - 1, N + 2)]
+        cases += [('gv', n, t, seed) for seed in (5, N - 1)]
+    return cases
+
+
+GV_CONFIGS = [dict(sps=16, R=1e9), dict(sps=8, fs=7.3e9), dict(R=2.5e9, fs=20e9), dict(fs=1e9), dict(sps=4, R=1e9, N=7),
+              dict(sps=16, R=1e9, wavelength=1310e-9), dict(sps=3, R=1.25e9, N=1)]
+
+
+def _matches(n, arr, off, L, bits, st):
+    """one real call of L bits that started `off` steps into the reference array"""
+    return (np.array_equal(bits, arr[n - 1 + off:n - 1 + off + L]) and int(st) % (1 << n) == window(arr, n, off + L))
+
+
+def case_form(case):
+    kind, n, t = case[:3]
+    N = 1 << n
+    viol, obs = [], []
+    calls = accepted = 0
+
+    if kind == 'seed':
+        spec = case[3]
+        tname = spec[1]
+        arg = mk(spec)
+        v = int(arg)                       # floats of the alphabet are integral
+        eff = v % N
+        target = eff or 1
+        lens = (1, n + 1, 2 * n + 3)
+        M = n + 2
+        arr = ref_stream(n, t, target, lens[-1] + M)
+        _, st0 = impl(n, 1, 1)
+        # the statement demands that what return_seed=True hands out is accepted as a seed: an object of that very type
+        # with a value a state can have.  For every other non-int type the statement is silent: rejecting it is fine,
+        # accepting it and generating something else than the sequence of its integer value is not.
+        strict = type(arg) is type(st0) and 1 <= v < N
+        for L in lens:                     # the same argument object is used for every call
+            what = f'PRBS({n}, {L}, seed={spec_label(spec)})'
+            rec = []
+            calls += 1
+            try:
+                bits, st = impl(n, L, arg, rec)
+            except REJECT as e:
+                if strict:
+                    viol.append(('resume:state-type-rejected',
+                                 f'{what}: {type(e).__name__} ({e}); {type(st0).__name__} is the type of the state the library returns'))
+                obs.append(('rejected', type(e).__name__))
+                continue
+            except Shape as e:
+                if strict:
+                    viol.append(('api:shape', str(e)))
+                obs.append(('shape',))
+                continue
+            accepted += 1
+            obs.append((sha(bits), int(st)))
+            if not _matches(n, arr, 0, L, bits, st):
+                # classify (nothing is dropped): canonical seed wrong -> stream defect; the Python int of the same value wrong
+                # as well -> the general seed clause; only the typed form wrong -> misread
+                cb, cs = impl(n, L, target)
+                if not _matches(n, arr, 0, L, cb, cs):
+                    compare_call(viol, n, t, target, L, bits, st, arr, what)
+                    continue
+                with warnings.catch_warnings():
+                    warnings.simplefilter('ignore')
+                    pb, ps = impl(n, L, v)
+                if not _matches(n, arr, 0, L, pb, ps):
+                    viol.append(('seed:zero-class-not-replaced-by-1' if eff == 0 else 'seed:not-reduced-mod-2^n',
+                                 f'{what} and the int seed {v}: must behave as seed {target}; got bits {bits[:n + 2].tolist()}.. state {int(st)}'))
+                    continue
+                viol.append((f'seed:misread:{tname}',
+                             f'{what}: accepted, but the output is not the sequence of its integer value {v} (= {target} after '
+                             f'reduction mod 2^{n}): got bits {bits[:n + 2].tolist()}.. state {int(st)}, PRBS({n}, {L}, seed={target}) '
+                             f'gives {cb[:n + 2].tolist()}.. state {int(cs)}'))
+                continue
+            if eff == 0 and not rec:
+                viol.append(('seed:zero-class-no-warning', f'{what}: seed = 0 mod 2^{n} replaced without a warning'))
+            # resume from the state of a call that was seeded with the typed value; state passed on as returned
+            calls += 1
+            b2, s2 = impl(n, M, st)
+            obs.append((sha(b2), int(s2)))
+            compare_call(viol, n, t, window(arr, n, L), M, b2, s2, arr[L:], f'{what} -> state {st!r} -> PRBS({n}, {M}, seed=<that state>)')
+        tag = ('form', 'seed', n, spec[1], spec[2]) if accepted else False
+
+    elif kind == 'len':
+        spec, seed_s = case[3], case[4]
+        tname = spec[1]
+        arg, seed = mk(spec), mk(seed_s)
+        L = int(arg)
+        s_eff = int(seed) % N
+        arr = ref_stream(n, t, s_eff, L)
+        what = f'PRBS({n}, len={spec_label(spec)}, seed={spec_label(seed_s)})'
+        calls += 1
+        try:
+            bits, st = impl(n, arg, seed)
+        except REJECT as e:
+            obs.append(('rejected', type(e).__name__))
+        except Shape as e:
+            viol.append((f'len:misread:{tname}', f'{what}: accepted, but {e}'))
+            obs.append(('shape',))
+        else:
+            accepted += 1
+            obs.append((sha(bits), int(st)))
+            if not _matches(n, arr, 0, L, bits, st):
+                cb, cs = impl(n, L, s_eff)
+                if _matches(n, arr, 0, L, cb, cs):
+                    viol.append((f'len:misread:{tname}', f'{what}: accepted, but output/state differ from PRBS({n}, {L}, seed={s_eff})'))
+                else:
+                    compare_call(viol, n, t, s_eff, L, bits, st, arr, what)
+        tag = ('form', 'len', n, spec[1], spec[2], spec_label(seed_s)) if accepted else False
+
+    elif kind == 'order':
+        spec, seed_s, L_s = case[3], case[4], case[5]
+        tname = spec[1]
+        arg, seed, Larg = mk(spec), mk(seed_s), mk(L_s)
+        L = int(Larg)
+        s_eff = int(seed) % N
+        arr = ref_stream(n, t, s_eff, L)
+        what = f'PRBS(order={spec_label(spec)}, len={spec_label(L_s)}, seed={spec_label(seed_s)})'
+        calls += 1
+        try:
+            bits, st = impl(arg, Larg, seed)
+        except REJECT as e:
+            obs.append(('rejected', type(e).__name__))
+        except Shape as e:
+            viol.append((f'order:misread:{tname}', f'{what}: accepted, but {e}'))
+            obs.append(('shape',))
+        else:
+            accepted += 1
+            obs.append((sha(bits), int(st)))
+            if not _matches(n, arr, 0, L, bits, st):
+                cb, cs = impl(n, L, s_eff)
+                if _matches(n, arr, 0, L, cb, cs):
+                    viol.append((f'order:misread:{tname}', f'{what}: accepted, but output/state differ from PRBS({n}, {L}, seed={s_eff})'))
+                else:
+                    compare_call(viol, n, t, s_eff, L, bits, st, arr, what)
+        tag = ('form', 'order', n, spec[1], spec_label(seed_s), spec_label(L_s)) if accepted else False
+
+    elif kind == 'call':
+        from opticomlib.devices import PRBS
+        seed = case[3]
+        L = 2 * n + 3
+        s_eff = seed % N
+        arr = ref_stream(n, t, s_eff, L)
+        forms = [('PRBS(n, L, s, True)', lambda: PRBS(n, L, seed, True)),
+                 ('PRBS(n, L, seed=s, return_seed=True)', lambda: PRBS(n, L, seed=seed, return_seed=True)),
+                 ('PRBS(return_seed=True, seed=s, len=L, order=n)', lambda: PRBS(return_seed=True, seed=seed, len=L, order=n)),
+                 ('PRBS(n, L, s)', lambda: PRBS(n, L, seed)),
+                 ('PRBS(n, L, s, False)', lambda: PRBS(n, L, seed, False)),
+                 ('PRBS(n, seed=s, len=L, return_seed=False)', lambda: PRBS(n, seed=seed, len=L, return_seed=False))]
+        for label, f in forms:
+            calls += 1
+            r = f()
+            with_state = 'True' in label
+            out = r[0] if (with_state and isinstance(r, tuple) and len(r) == 2) else r
+            data = getattr(out, 'data', None)
+            good = isinstance(data, np.ndarray) and data.shape == (L,) and np.array_equal(data, arr[n - 1:n - 1 + L])
+            if with_state:
+                good = good and isinstance(r, tuple) and isinstance(r[1], (int, np.integer)) and int(r[1]) % N == window(arr, n, L)
+            else:
+                good = good and not isinstance(r, tuple)
+            obs.append((label, bool(good)))
+            if not good:
+                b1, s1 = impl(n, L, seed)
+                if _matches(n, arr, 0, L, b1, s1):
+                    viol.append(('api:call-form-differs', f'{label} with n={n}, L={L}, s={seed}: not the result of the keyword call '
+                                                         f'PRBS(order=n, len=L, seed=s, return_seed=...)'))
+                else:
+                    compare_call(viol, n, t, s_eff, L, b1, s1, arr, f'PRBS({n}, {L}, seed={seed})')
+            accepted += 1
+        tag = ('form', 'call', n, seed)
+
+    elif kind == 'gv':
+        from mcx.core.env import gv_reset
+        seed = case[3]
+        L = 2 * n + 3
+        arr = ref_stream(n, t, seed % N, L)
+        gv_reset()
+        b0, s0 = impl(n, L, seed)
+        calls += 1
+        compare_call(viol, n, t, seed % N, L, b0, s0, arr, f'PRBS({n}, {L}, seed={seed})')
+        for cfg in GV_CONFIGS + GV_CONFIGS[:2]:          # the first two once more after the grid was reconfigured
+            gv_reset(**cfg)
+            b, s_ = impl(n, L, seed)
+            calls += 1
+            accepted += 1
+            obs.append((sha(b), int(s_)))
+            if not (np.array_equal(b, b0) and int(s_) == int(s0)):
+                viol.append(('stream:depends-on-gv', f'PRBS({n}, {L}, seed={seed}, return_seed=True) after gv({cfg}) differs from the '
+                                                     f'same call on the default grid'))
+        gv_reset()
+        tag = ('form', 'gv', n, seed)
+    else:
+        raise RuntimeError(f'unknown form {kind}')
+    return res(viol=viol, obs=(kind, n, repr(case[3:]), tuple(obs)), nontrivial=tag,
+               stats={'impl_calls': calls, 'form_cases': 1, 'form_calls_accepted': accepted})
+
+
 # =========================================================================== case: len / order validation
 def validation_alphabet():
+    """(kind, order, label of len, len, seed, return_seed); order / len / seed may be ('T', type, value) specs (see mk)"""
+    T = lambda tn, v: ('T', tn, v)
     cases = []
+    bad_lens = [('0', 0), ('-1', -1), ('-5', -5), ('1.0', 1.0), ('2.5', 2.5), ("'5'", '5'), ('[5]', [5])]
     for n in (7, 31):
         for seed in (None, 1):
-            for label, L in [('0', 0), ('-1', -1), ('-5', -5), ('1.0', 1.0), ('2.5', 2.5), ("'5'", '5'), ('[5]', [5])]:
-                cases.append(('len', n, label, L, seed))
-    for order in (8, 0, 32, 1, 6, 10, 16, 30, 33, 63, 64, -1, -7):
+            for label, L in bad_lens:
+                cases.append(('len', n, label, L, seed, True))
+    base_orders = (8, 0, 32, 1, 6, 10, 16, 30, 33, 63, 64, -1, -7)
+    for order in base_orders:
         for L in (None, 10):
             for seed in (None, 1):
-                cases.append(('order', order, repr(L), L, seed))
+                cases.append(('order', order, repr(L), L, seed, True))
+    # ---- hardening pass: more ways of not being a positive int (typed zeros / negatives, floats of every kind, containers)
+    more_lens = bad_lens + [('10.0', 10.0), ('0.0', 0.0), ('-0.0', -0.0), ('1e3', 1e3), ('inf', float('inf')), ('nan', float('nan')),
+                            ('5+0j', 5 + 0j), ("b'5'", b'5'), ('(5,)', (5,)), ('False', False)]
+    more_lens += [(spec_label(x), x) for x in (T('int64', 0), T('int64', -1), T('int32', -5), T('uint8', 0), T('int8', -128),
+                                               T('float64', 5.0), T('float64', 10.0), T('float32', 2.5), T('float32', 1.0),
+                                               T('0d:float64', 5.0), T('0d:int64', 0), T('1d:int64', [5]), T('1d:int64', [5, 6]),
+                                               T('bool_', False))]
+    seen = set(map(repr, cases))
+    for n in (7, 31):
+        for seed in (None, 1, T('int64', 5)):
+            for rs in (True, False):
+                for label, L in more_lens:
+                    c = ('len', n, label, L, seed, rs)
+                    if repr(c) not in seen:
+                        seen.add(repr(c))
+                        cases.append(c)
+    # ---- unsupported orders x len x seed x return_seed; values around / containing the supported ones
+    orders = list(base_orders) + [2, 3, 4, 5, 12, 13, 14, 17, 19, 21, 22, 24, 29, 70, 71, 77, 79, 90, 91, 97, 110, 115, 120, 123,
+                                  127, 128, 131, 150, 200, 230, 231, 310, 311, 1000, -9, -11, -15, -20, -23, -31]
+    for order in orders:
+        for L in (None, 10, 1, T('int64', 10)):
+            for seed in (None, 1, 0, T('int64', 5)):
+                for rs in (True, False):
+                    c = ('order', order, spec_label(L), L, seed, rs)
+                    if repr(c) not in seen:
+                        seen.add(repr(c))
+                        cases.append(c)
+    typed_orders = [T('int64', 8), T('int32', 32), T('uint8', 0), T('int8', -7), T('int64', 30), T('uint64', 8), T('int16', 1000),
+                    T('float', 8.0), T('float', 7.5), T('float', 31.5), T('float64', 7.5), T('float', 6.999999), T('float', 7.000001),
+                    T('float32', 30.5), T('bool', True), T('bool', False)]
+    for order in typed_orders:
+        for L in (None, 10):
+            for seed in (None, 1):
+                for rs in (True, False):
+                    cases.append(('order', order, repr(L), L, seed, rs))
+    # ---- invalid in both ways: any of the two errors
+    for order in (8, 0, 32, -7, T('int64', 8)):
+        for label, L in bad_lens + [('np.int64(0)', T('int64', 0)), ('10.0', 10.0)]:
+            for seed in (None, 1):
+                for rs in (True, False):
+                    cases.append(('both', order, label, L, seed, rs))
     return cases
 
 
 def case_valid(case):
-    kind, order, label, L, seed = case
+    kind, order_s, label, L_s, seed_s, rs = case
     from opticomlib.devices import PRBS
-    what = f'PRBS(order={order}, len={label}, seed={seed}, return_seed=True)'
-    accept = (ValueError,) if kind == 'order' else (TypeError, ValueError)
+    order, L, seed = mk(order_s), mk(L_s), mk(seed_s)
+    what = f'PRBS(order={spec_label(order_s)}, len={label}, seed={spec_label(seed_s)}, return_seed={rs})'
+    # "unsupported orders raise ValueError": demanded for an int order with a valid (or default) len; where the order or the
+    # len is of another type the statement does not say which of the two errors comes -> TypeError or ValueError
+    strict_order = kind == 'order' and type(order) is int and (L is None or (type(L) is int and L > 0))
+    accept = (ValueError,) if strict_order else ((TypeError, ValueError) if kind == 'order' else REJECT)
+    obs0 = (kind, spec_label(order_s), label, spec_label(seed_s), rs)
     try:
-        PRBS(order=order, len=L, seed=seed, return_seed=True)
+        with warnings.catch_warnings():
+            warnings.simplefilter('ignore')
+            PRBS(order=order, len=L, seed=seed, return_seed=rs)
     except accept as e:
-        in_tests = (kind, order, L, seed) in (('order', 8, None, None), ('len', 7, 0, None))
-        return res(obs=(kind, order, label, seed, type(e).__name__), nontrivial=(False if in_tests else (kind, order, label, seed)),
-                   stats={'validation_cases': 1})
+        in_tests = (kind, order_s, L_s, seed_s) in (('order', 8, None, None), ('len', 7, 0, None))
+        return res(obs=obs0 + (type(e).__name__,), nontrivial=(False if in_tests else obs0), stats={'validation_cases': 1})
     except (TypeError, ValueError) as e:    # only reachable for kind == 'order'
         return res(viol=[('valid:order-wrong-exception', f'{what}: raised {type(e).__name__} ({e}), the statement requires ValueError')],
-                   obs=(kind, order, label, seed, type(e).__name__), stats={'validation_cases': 1})
-    key = 'valid:len-not-rejected' if kind == 'len' else 'valid:unsupported-order-accepted'
-    return res(viol=[(key, f'{what}: returned normally')], obs=(kind, order, label, seed, 'returned'), stats={'validation_cases': 1})
+                   obs=obs0 + (type(e).__name__,), stats={'validation_cases': 1})
+    key = {'len': 'valid:len-not-rejected', 'order': 'valid:unsupported-order-accepted', 'both': 'valid:bad-order-and-len-accepted'}[kind]
+    return res(viol=[(key, f'{what}: returned normally')], obs=obs0 + ('returned',), stats={'validation_cases': 1})
 
 
 # =========================================================================== start-state sets
@@ -667,7 +1002,14 @@ def run(ctx):
              'next checkpoint; (steps) the one-call transition relation state --len--> (bits, state) from EVERY non-zero start state '
              '(orders with 2^n-1 <= bound) or a fixed set of start states, all lengths of the alphabet incl. >= one and two periods; '
              '(histories) all sequences of 1..3 resumed calls over {1,2,3,n-1,n,n+1,2n+3} + every 2-split of 2n+3 + every 3-split of '
-             'n+2, returned state fed back, against the single call; (seeds) residues/zero class; (validation) len/order clauses')
+             'n+2 + all 81 sequences of 4 calls over {1,2,n+1} (+ period-multiple sequences for n<=9), the returned state object fed '
+             'back unchanged, against the single call; (seeds) residues/zero class incl. +-2^k, +-(2^k+-1) for every machine-word size k; '
+             '(forms) seed/len/order given as every numpy integer dtype at its limits and around 2^n, bool, integral floats, 0-d arrays: '
+             'the library may reject a type the statement does not name, but a call that returns must produce the sequence of the '
+             'integer value, and the type return_seed=True itself hands out must be accepted; positional/keyword call forms; the same '
+             'call under 7 configurations of the global grid; (validation) every way of not being a positive int x order {7,31} x seed x '
+             'return_seed, 59 unsupported int orders + 16 typed ones x len {None,10,1,np.int64(10)} x seed {None,1,0,np.int64(5)} x '
+             'return_seed, and order and len both invalid')
     ctx.assume('PRBS is a function of (order, len, seed) apart from what the histories part would expose; GF(2) algebra, numpy and the C '
                'compiler are trusted; the theory "order of x mod p = 2^n-1 => every non-zero start lies on the single cycle" is '
                'standard (Lidl/Niederreiter 8.28) and is confirmed literally by the C walk')
@@ -707,12 +1049,12 @@ def run(ctx):
             seeds = list(range(1, P + 1))
             per = 16 if n <= 15 else 256
             if n <= 9:
-                lens = short + [P - 1, P, P + 1, 2 * P + 3]
+                lens = short + long_lens(P)
                 step_cases += [(n, t, c, lens) for c in chunks(seeds, per)]
             else:
                 step_cases += [(n, t, c, short) for c in chunks(seeds, per)]
                 if n <= 15:
-                    step_cases += [(n, t, c, [P - 1, P, P + 1, 2 * P + 3]) for c in chunks(state_set(n, t, 64 if n == 11 else 16), 4)]
+                    step_cases += [(n, t, c, long_lens(P)) for c in chunks(state_set(n, t, 64 if n == 11 else 16), 4)]
             call_states += P
         else:
             seeds = state_set(n, t, big_count)
@@ -744,6 +1086,9 @@ def run(ctx):
     # ---- seed clause
     seed_cases = [(n, REF_TAPS[n], cls, label, s) for n in ORDERS for (cls, label, s) in seed_alphabet(n)]
     ctx.pmap('seeds', case_seed, seed_cases, horizon=20)
+
+    # ---- typed argument forms (numpy scalars, bool, integral floats, 0-d arrays), call forms, gv independence
+    ctx.pmap('forms', case_form, forms_alphabet(), horizon=20)
 
     # ---- orders 23 / 31 on segments from model checkpoints
     if quick:
